@@ -1200,11 +1200,34 @@ impl Machine for MProp {
                 s.extend_if(&ints, |&x| x > 0)
             }
             3 => {
+                // FromIterator over an exact-size iterator
                 let p: proportion::Stats = bs.iter().copied().collect();
                 *s = *s + p;
             }
             4 => {
-                let p: proportion::Stats = bs.iter().copied().collect();
+                // FromIterator over iterators whose size hint is not exact (filter, flat_map,
+                // chain of halves, take_while) - alternating by chunk length
+                let p: proportion::Stats = match bs.len() % 4 {
+                    0 => bs.iter().copied().filter(|_| true).collect(),
+                    1 => bs.iter().flat_map(|&b| Some(b)).collect(),
+                    2 => {
+                        let h = bs.len() / 2;
+                        bs[..h].iter().copied().chain(bs[h..].iter().copied().filter(|_| true)).collect()
+                    }
+                    _ => {
+                        let mut i = 0;
+                        let n = bs.len();
+                        std::iter::from_fn(|| {
+                            if i < n {
+                                i += 1;
+                                Some(bs[i - 1])
+                            } else {
+                                None
+                            }
+                        })
+                        .collect()
+                    }
+                };
                 *s += p;
             }
             5 => {
@@ -1235,8 +1258,8 @@ impl Machine for MProp {
             "add_success/add_failure loop",
             "extend(&Vec<bool>)",
             "extend_if(&Vec<i32>, >0)",
-            "collect(); s=s+p",
-            "collect(); s+=p",
+            "collect() exact-size; s=s+p",
+            "collect() over filter/flat_map/chain/from_fn; s+=p",
             "new(n,k); s=p+s",
             "new(1,b) each; s+=p",
             "extend(&VecDeque<bool>)",
